@@ -253,6 +253,10 @@ func (s *Sorts) rangeConstraint(t types.Type, term string) string {
 	if lo, hi, ok := intRange(t); ok {
 		return fmt.Sprintf("(and (<= %s %s) (<= %s %s))", smtInt(lo), term, term, smtInt(hi))
 	}
+	if b, ok := t.Underlying().(*types.Basic); ok && b.Info()&types.IsString != 0 {
+		// a string fits in the address space
+		return fmt.Sprintf("(<= (str.len %s) 72057594037927936)", term)
+	}
 	switch u := t.Underlying().(type) {
 	case *types.Slice:
 		// lengths and capacities are bounded by the address space (2^56 elements)
